@@ -260,14 +260,27 @@ fn foreign_large(sizes: &[u64]) -> (Shared<SparseFile>, Vec<(String, u64, u32, u
 /// entries given as (uncompressed size, compressed size); method 0 when equal, 8 otherwise (the
 /// payload is a zero run: not a valid deflate stream, it is never decoded)
 pub fn foreign_large2(sizes: &[(u64, u64)]) -> (Shared<SparseFile>, Vec<(String, u64, u64, u32, u64)>) {
+    foreign_large3(sizes, 0)
+}
+
+/// `prefix` > 0: the archive sits behind that many bytes of other data and all recorded offsets are
+/// relative to the archive's own start (self-extractor layout); the expected header offsets returned
+/// are absolute positions in the file
+pub fn foreign_large3(sizes: &[(u64, u64)], prefix: u64) -> (Shared<SparseFile>, Vec<(String, u64, u64, u32, u64)>) {
     let f = Shared::new(SparseFile::new());
     let mut expect = Vec::new();
     let mut central = Vec::new();
     {
         let mut g = f.0.lock().unwrap();
+        if prefix > 0 {
+            g.write_all(b"#!/bin/sh\nexit 0\n").unwrap();
+            g.seek(SeekFrom::Start(prefix)).unwrap();
+            g.len = g.len.max(prefix);
+        }
         for (i, &(size, csize)) in sizes.iter().enumerate() {
             let name = format!("big{i}.bin");
-            let off = g.pos;
+            let abs = g.pos;
+            let off = g.pos - prefix;
             let crc = crc_zeros(size);
             let big = size >= 0xFFFF_FFFF || csize >= 0xFFFF_FFFF;
             let method: u16 = if size == csize { 0 } else { 8 };
@@ -329,13 +342,13 @@ pub fn foreign_large2(sizes: &[(u64, u64)]) -> (Shared<SparseFile>, Vec<(String,
                 c.extend_from_slice(&z);
             }
             central.push(c);
-            expect.push((name, size, csize, crc, off));
+            expect.push((name, size, csize, crc, abs));
         }
-        let cd_start = g.pos;
+        let cd_start = g.pos - prefix;
         for c in &central {
             g.write_all(c).unwrap();
         }
-        let cd_end = g.pos;
+        let cd_end = g.pos - prefix;
         let mut t = Vec::new();
         t.extend_from_slice(&0x06064b50u32.to_le_bytes());
         t.extend_from_slice(&44u64.to_le_bytes());
@@ -397,7 +410,11 @@ fn check_foreign_large(sizes: &[u64]) -> Result<(), String> {
 /// new_append onto a foreign ZIP64 archive whose entries have sizes/offsets beyond 4 GiB (and
 /// uncompressed != compressed), add one small entry, finish: every value must survive.
 fn check_append_large(sizes: &[(u64, u64)]) -> Result<(), String> {
-    let (f, expect) = foreign_large2(sizes);
+    check_append_large_p(sizes, 0)
+}
+
+pub fn check_append_large_p(sizes: &[(u64, u64)], prefix: u64) -> Result<(), String> {
+    let (f, expect) = foreign_large3(sizes, prefix);
     {
         let mut rw = f.clone();
         rw.seek(SeekFrom::Start(0)).map_err(|e| e.to_string())?;
@@ -573,6 +590,25 @@ pub fn run(ctx: &mut Ctx) {
     ctx.enumerate::<AL>("append_large", al.len() as u64, &|i| AL(al[i as usize].clone()), &|a: &AL, info: &mut Info| {
         info.nontrivial = true;
         match catch(|| check_append_large(&a.0)) {
+            Ok(r) => Verdict::from_result(r),
+            Err(p) => Verdict::Fail(format!("PANIC: {p}")),
+        }
+    });
+    // the same behind prepended data (offsets recorded relative to the archive's start): the rewritten
+    // central directory must still lead to every old entry, in particular to those whose header lies
+    // beyond 4 GiB and whose central record already carried a ZIP64 record
+    #[derive(Clone, Debug, Serialize, Deserialize, Hash)]
+    struct ALP {
+        sizes: Vec<(u64, u64)>,
+        prefix: u64,
+    }
+    let alp: Vec<ALP> = ctx.q(
+        vec![ALP { sizes: vec![(G + 5, G + 5), (9, 9), (300, 300)], prefix: 4096 }, ALP { sizes: vec![(G - 3000, G - 3000), (10, 10), (11, 11)], prefix: 3000 }],
+        vec![ALP { sizes: vec![(G + 5, G + 5), (9, 9), (300, 300)], prefix: 4096 }, ALP { sizes: vec![(G - 3000, G - 3000), (10, 10), (11, 11)], prefix: 3000 }, ALP { sizes: vec![(5 << 30, (9 << 30) / 2), (20, 20)], prefix: 1 }, ALP { sizes: vec![(7, 7), (G + 3, G + 1), (G - 1, G + 9)], prefix: 70000 }],
+    );
+    ctx.enumerate::<ALP>("append_large_prefixed", alp.len() as u64, &|i| alp[i as usize].clone(), &|a: &ALP, info: &mut Info| {
+        info.nontrivial = true;
+        match catch(|| check_append_large_p(&a.sizes, a.prefix)) {
             Ok(r) => Verdict::from_result(r),
             Err(p) => Verdict::Fail(format!("PANIC: {p}")),
         }
